@@ -1798,7 +1798,14 @@ impl SctpInner {
             answered.filter(|a| a.peer_tag == initiate_tag && a.peer_initial_tsn == initial_tsn)
         };
 
-        if duplicate_of.is_none() {
+        // An INIT of the association that is already established (its initiate tag is the tag we
+        // send to that peer) - e.g. the peer's own INIT of an INIT collision arriving late - is
+        // answered without touching the TCB either (RFC 4960 §5.2.2).
+        let same_association = duplicate_of.is_none()
+            && *self.state.lock() == SctpState::Connected
+            && initiate_tag == self.remote_verification_tag.load(Ordering::SeqCst);
+
+        if duplicate_of.is_none() && !same_association {
             self.peer_rwnd.store(a_rwnd, Ordering::SeqCst);
             let init_ssthresh = (a_rwnd as usize).max(SSTHRESH_MIN);
             self.ssthresh.store(init_ssthresh, Ordering::SeqCst);
@@ -1808,12 +1815,23 @@ impl SctpInner {
                 .store(initial_tsn.wrapping_sub(1), Ordering::SeqCst);
         }
 
+        // RFC 4960 §5.2.1: an INIT that crosses our own outstanding INIT is answered with the
+        // initiate tag and initial TSN our INIT carries (no DATA has been sent yet, so next_tsn
+        // still is that initial TSN): both handshakes then describe the same association.
+        let own_init_outstanding = matches!(
+            &*self.t1_chunk.lock(),
+            Some((CT_INIT, _, _)) | Some((CT_COOKIE_ECHO, _, _))
+        ) && *self.state.lock() != SctpState::Connected;
+
         // Generate local tag
         let local_tag = match duplicate_of {
             Some(a) => a.local_tag,
+            None if own_init_outstanding || same_association => {
+                self.verification_tag.load(Ordering::SeqCst)
+            }
             None => random_u32(),
         };
-        if duplicate_of.is_none() {
+        if duplicate_of.is_none() && !same_association {
             self.verification_tag.store(local_tag, Ordering::SeqCst);
         }
         let peer_initial_tsn = initial_tsn;
@@ -1838,7 +1856,13 @@ impl SctpInner {
             .unwrap_or(initial_tsn);
         let initial_tsn = match duplicate_of {
             Some(a) => a.local_initial_tsn,
+            None if same_association => self.next_tsn.load(Ordering::SeqCst),
             None => {
+                let initial_tsn = if own_init_outstanding {
+                    self.next_tsn.load(Ordering::SeqCst)
+                } else {
+                    initial_tsn
+                };
                 self.next_tsn.store(initial_tsn, Ordering::SeqCst);
                 self.peer_cumulative_tsn_ack
                     .store(initial_tsn.wrapping_sub(1), Ordering::SeqCst);
@@ -1949,7 +1973,16 @@ impl SctpInner {
             return Ok(());
         }
         self.t1_cancel();
-        *self.state.lock() = SctpState::Connected;
+        // INIT collision (RFC 4960 §5.2.1: both ends sent INIT): the peer's COOKIE-ECHO may
+        // already have established the association. The COOKIE-ACK then only stops the T1
+        // timer of our own COOKIE-ECHO; channels are opened on the transition to Connected, once.
+        {
+            let mut state = self.state.lock();
+            if *state == SctpState::Connected {
+                return Ok(());
+            }
+            *state = SctpState::Connected;
+        }
         self.advanced_peer_ack_tsn.store(
             self.next_tsn.load(Ordering::SeqCst).wrapping_sub(1),
             Ordering::SeqCst,
@@ -2411,7 +2444,15 @@ impl SctpInner {
             }
         }
 
-        *self.state.lock() = SctpState::Connected;
+        // INIT collision: our own handshake (COOKIE-ACK for our COOKIE-ECHO) may have established
+        // the association already; the peer's COOKIE-ECHO is then only acknowledged.
+        {
+            let mut state = self.state.lock();
+            if *state == SctpState::Connected {
+                return Ok(());
+            }
+            *state = SctpState::Connected;
+        }
         self.advanced_peer_ack_tsn.store(
             self.next_tsn.load(Ordering::SeqCst).wrapping_sub(1),
             Ordering::SeqCst,
